@@ -37,6 +37,48 @@ func buildExprs(g *univ.Gen, maxW int, keep func(toks []model.Tok, ast *model.No
 	return out
 }
 
+// conformGen is buildExprs + conform in bounded memory: the sentences of each weight are parsed and replayed
+// in chunks, nothing but the statistics (and a handful of sample expressions) outlives a chunk.
+func conformGen(r *harness.Run, g *univ.Gen, maxW int, keep func(toks []model.Tok, ast *model.Node) bool, docs []interface{}, opts conformOpts) (conformStats, int, []exprCase) {
+	const chunk = 200000
+	var total conformStats
+	n := 0
+	var samples []exprCase
+	for w := 1; w <= maxW; w++ {
+		if w < opts.minW {
+			continue
+		}
+		ss := g.Sentences(w)
+		for lo := 0; lo < len(ss); lo += chunk {
+			hi := lo + chunk
+			if hi > len(ss) {
+				hi = len(ss)
+			}
+			part := make([]exprCase, 0, hi-lo)
+			for _, s := range ss[lo:hi] {
+				toks := g.Tokens(s)
+				ast, strict, err := model.Parse(toks)
+				if err != nil || !strict {
+					harness.Fatal("model inconsistency: generated sentence %q rejected by P: %v", model.Spell(toks, model.Spaced), err)
+				}
+				if keep != nil && !keep(toks, ast) {
+					continue
+				}
+				part = append(part, exprCase{toks, model.Spell(toks, model.Tight), ast})
+			}
+			if len(part) == 0 {
+				continue
+			}
+			total.add(conform(r, part, docs, opts))
+			n += len(part)
+			if w == maxW && len(samples) < 4 {
+				samples = append(samples, part[0], part[len(part)/2], part[len(part)-1])
+			}
+		}
+	}
+	return total, n, samples
+}
+
 func exprFromText(text string) exprCase {
 	toks, err := model.Lex(text)
 	if err != nil {
@@ -50,8 +92,8 @@ func exprFromText(text string) exprCase {
 }
 
 type conformOpts struct {
-	// judge decides which pairs get a verdict; nil = all
-	skipValue bool // only panics / mutation are judged (used by other properties reusing the universe)
+	minW      int                                                                   // conformGen: first weight to enumerate (0 = from 1)
+	skipValue bool                                                                  // only panics / mutation are judged (used by other properties reusing the universe)
 	onResult  func(w int, e *exprCase, doc interface{}, res interface{}, err error) // extra oracle on successful impl results
 	onPair    func(w int, e *exprCase, di int, outs []model.Outcome, res interface{}, err error, pn *impl.Panic)
 }
